@@ -34,9 +34,9 @@ def showLocks (ls : List Lock) : String :=
   " ".intercalate ((sortLocks ls).map (fun l => s!"{l.1}:{l.2}"))
 
 /-- addresses of all subaccounts that can exist -/
-def subAddrs (s : State) : List Acct := (List.range s.nextId).map addrOf
+def subAddrs (s : State) : List Nat := (List.range s.nextId).map addrOf
 
-def ownerCandidates (s : State) : List Acct := List.range nUsers ++ subAddrs s ++ [addrOf s.nextId]
+def ownerCandidates (s : State) : List Nat := List.range nUsers ++ subAddrs s ++ [addrOf s.nextId]
 
 def showState (s : State) : List String :=
   let hdr := s!"s {s.now} {s.nextId} {b2s s.wagerEnabled} {b2s s.depositEnabled} {b2s s.clean} {s.bank (addrOf s.nextId)}"
